@@ -76,7 +76,9 @@ class Report:
                 self.samples.append({"rule": rid, "instance": key, "at": loc, "verdict": "holds",
                                      "detail": sample if sample is not None else detail})
 
-    def violation(self, rid: str, key: str, msg: str, loc: str = "", detail: Any = None):
+    def violation(self, rid: str, key: str, msg: str, loc: str = "", detail: Any = None, self_contained: bool = False):
+        """self_contained: the verdict rests on the reported construct alone (e.g. 'this function calls itself') and stays true however the
+        enclosing function was decomposed into helpers, so it is not withheld when the decomposition could not be restored."""
         if any(v["rule"] == rid and v["key"] == key and v["at"] == loc for v in self.violations):
             return
         r = self.rules[rid]
@@ -86,7 +88,7 @@ class Report:
         if k not in self.keys_seen:
             r["nontrivial"] += 1
         self.keys_seen.add(k)
-        self.violations.append({"rule": rid, "key": key, "msg": msg, "at": loc, "detail": detail})
+        self.violations.append({"rule": rid, "key": key, "msg": msg, "at": loc, "detail": detail, "self_contained": self_contained})
 
     def note(self, text: str):
         self.notes.append(text)
@@ -108,7 +110,7 @@ class Report:
         for v in self.violations:
             m_ = re.match(r"^(.*?):(\d+)$", str(v.get("at") or ""))
             hit_ = None
-            if m_ and tainted:
+            if m_ and tainted and not v.get("self_contained"):
                 for rel, a_, b_, why in tainted:
                     if rel == m_.group(1) and a_ <= int(m_.group(2)) <= max(a_, b_):
                         hit_ = why
